@@ -139,6 +139,7 @@ class Recorder:
             Source.__init__(n, self.env, f"N{i}", inter_arrival_time=iat, blocking=cfg.get("blocking", True),
                             flow_item_type=cfg.get("item_type", "item"), **kw)
             for k, v in after.items(): setattr(n, k, v)
+            if cfg.get("setup"): n.node_setup_time = t2f(cfg["setup"])
         elif kind == "sink":
             n = object.__new__(Sink); reg(n)
             Sink.__init__(n, self.env, f"N{i}")
@@ -267,6 +268,18 @@ class Recorder:
                 act["trigset"].update(woke)
                 act["items"].append((self.iid(item), f2t(c) if c is not None and f2t(c) is not None else 0,
                                      int(getattr(it, "flow_item_type", "") == "Pallet"), content, woke))
+            # C18: "an item's timestamps are non-decreasing along its route" - read off the object whenever it crosses an edge: nothing is
+            # stamped before the creation stamp, nothing after the present instant
+            cr = getattr(it, "timestamp_creation", None)
+            if len(self.instant_viol) < 5:
+                for nm in ("timestamp_node_entry", "timestamp_node_exit", "timestamp_destruction"):
+                    x = getattr(it, nm, None)
+                    if x is None: continue
+                    if cr is not None and x < cr - 1e-9:
+                        self.instant_viol.append(("C18", "timestamps", f"item {self.iid(item)} ({name} on edge {ei} at t={f2t(self.env.now)}): {nm} = {x} lies before its "
+                                                                      f"timestamp_creation = {cr}: the stamps go backwards along the route"))
+                    elif x > self.env.now + 1e-9:
+                        self.instant_viol.append(("C18", "timestamps", f"item {self.iid(item)} ({name} on edge {ei} at t={f2t(self.env.now)}): {nm} = {x} lies in the future"))
             self.open_toks[nid] = [(x, ev) for x, ev in self.open_toks[nid] if ev is not tok]
             self.moves.append((len(self.acts), f2t(self.env.now), name, ei, self.iid(item), nid))
             self.move_content.append(tuple(content))
